@@ -1,14 +1,33 @@
-"""C07 -- interpreter engines (and, where the property has one, its emitted-C half): see engine/enginecheck.py."""
+"""C07 -- a failing element of executable content skips only the rest of its own block.
+ (a) interpreter engines: tagged assertions of the engine harness (engine/enginecheck.py, mask T_ERR)
+ (b) emitted ANSI-C: differential use of the C04 step harness -- for every document the behaviour query is run once
+     with no failing element (NO_FAIL) and once with a symbolic failure pattern over every onentry/onexit/transition
+     block; where the first holds, every difference the second one finds is caused by how a failure is handled
+     (the reference skips the rest of the failing block and nothing else) and is replayed on the compiled machine."""
 from common import *
-import enginecheck
+import enginecheck, stepcheck
 
 
 def run(tier, seed):
     chk = Check('C07', tier, seed)
     W = workdir('C07')
     enginecheck.run_engines(chk, 'C07', W, tier, seed + 7, 2)
+    native_build(['bin/uscxml-transform'])
+    sr = stepcheck.StepRun(chk, W, tier)
+    prepared = sr.prepare(sr.filter_known(stepcheck.documents(tier, seed + 7), ('C04', 'C07')))
+    tmo = 420 if tier == 'quick' else 3600
+    queries = [dict(name='nofail', mode=1, variant=1, defs=('NO_FAIL',)), dict(name='failures', mode=1, variant=1, witness=True, baseline='nofail')]
+    sr.run(prepared, queries, tmo, 'C07')
+    chk.functions += ['uscxml_step and every emitted *_on_entry / *_on_exit / *_on_trans function (this run\'s output of uscxml-transform -tc), with exec_content_log failing per block under solver control']
+    chk.assumptions += ['emitted C: a violation is reported only for documents whose failure-free behaviour query holds (differential); other documents are listed under differential_skipped']
     return chk.finish()
 
 
 def do_replay(path):
+    import json
+    r = json.load(open(path))
+    if r.get('kind') == 'emitted-c-step':
+        rc = stepcheck.replay_file(path, workdir('C07', clean=False))
+        if rc: log('VIOLATION property=C07 replay=%s' % path)
+        return rc
     return enginecheck.do_replay('C07', path)
